@@ -248,7 +248,7 @@ PROPS["C07"] = dict(
         for l in range(0, 6)] + [
         e1("C07.last_layer_value.kani.len%d" % l, "c07_last_value_%d" % l, "fri_verify on the one-layer instance, one query, %d coefficients (any felts), query value any felt different from the polynomial's value at the query point" % l,
            "a query value inconsistent with the last-layer polynomial is rejected (compiled real code)", tier=(Q if l == 1 else T), timeout=(1200 if l == 1 else 3600), mem=10)
-        for l in (1, 2, 4)],
+        for l in (1, 2)],
     assumptions=E2S_ASSUMPTIONS,
     outside=["'a function of degree >= bound is rejected except with small probability': a probabilistic statement over the query randomness - no solver here can quantify over provers",
              "queried input values / evaluation points: they are recomputed or absorbed; that a changed challenge makes a later check fail is probabilistic",
